@@ -74,6 +74,8 @@ func exec(op string) vlib.Res {
 		return execSynth(f)
 	case "deleg nsec":
 		return execDeleg(f)
+	case "nodata nsec":
+		return execNodataNSEC(f)
 	case "ad edns":
 		return execAdEdns(f)
 	case "ad tomsg":
@@ -152,7 +154,11 @@ func gen(r *vlib.R, n int, tier string, emit func(string)) {
 		case k == 20 || k == 21:
 			emit(genSynth(r))
 		case k == 22:
-			emit(genDeleg(r))
+			if r.Bool() {
+				emit(genDeleg(r))
+			} else {
+				emit(genNodataNSEC(r))
+			}
 		case k < 9:
 			op, tags := genRRSIG(r, now)
 			em(op, tags)
@@ -257,6 +263,9 @@ func shapeFacts(out map[string]any) {
 	out["shape_key_fetch_is_validated"] = false
 	out["shape_wildcard_proof_from_filtered_authority"] = false
 	out["shape_validated_denial_keeps_signer_zone_only"] = false
+	for _, fn := range []string{"answer", "authority", "validateDelegation"} {
+		out["shape_zone_security_judged_for_serving_zone_"+fn] = false
+	}
 	out["shape_dname_target_ad_anded_whatever_the_target_carries"] = false
 	out["shape_soa_beside_ns_goes_through_allowlist"] = false
 	out["shape_cd_fetch_only_before_explicit_validation"] = false
@@ -326,6 +335,47 @@ func shapeFacts(out map[string]any) {
 					good = false
 				}
 				out["shape_signer_checked_before_findds_"+name] = good
+				return false
+			})
+			// (1b) inside the signer loop "is the zone signed?" is asked about the zone that SERVED the response
+			//      (`r.isZoneSecure(ctx, q.Name, <ds>, zone)`), never about a name taken from the candidate signer
+			ast.Inspect(fd.Body, func(x ast.Node) bool {
+				rs, ok := x.(*ast.RangeStmt)
+				if !ok {
+					return true
+				}
+				if id, ok := rs.X.(*ast.Ident); !ok || id.Name != "signers" {
+					return true
+				}
+				good, seen := true, false
+				ast.Inspect(rs.Body, func(y ast.Node) bool {
+					c, isC := y.(*ast.CallExpr)
+					if !isC {
+						return true
+					}
+					sel, isS := c.Fun.(*ast.SelectorExpr)
+					if !isS || !strings.HasSuffix(sel.Sel.Name, "ZoneSecure") {
+						return true
+					}
+					seen = true
+					if sel.Sel.Name != "isZoneSecure" || len(c.Args) != 4 {
+						good = false
+						return true
+					}
+					if id, ok := c.Args[3].(*ast.Ident); !ok || id.Name != "zone" {
+						good = false
+					}
+					for _, a := range c.Args {
+						ast.Inspect(a, func(z ast.Node) bool {
+							if id, ok := z.(*ast.Ident); ok && id.Name == "signer" {
+								good = false
+							}
+							return true
+						})
+					}
+					return true
+				})
+				out["shape_zone_security_judged_for_serving_zone_"+name] = seen && good
 				return false
 			})
 			// (2) `if r.dnssec && !r.hasTrustAnchors() { return …ErrTrustAnchorsUnavailable }` precedes the
